@@ -147,6 +147,26 @@ def run(tier: str, only=None) -> int:
         P = {"how": how, "threads": 2}
         harness.run_exploration(rep, PID, name + "/sync", CreateRaceScn, P, {"ps": 2, "free": 0} if tier == "quick" else {"ps": 2, "free": 1}, max_execs=cap)
         harness.run_exploration(rep, PID, name + "/stmt", CreateRaceScn, P, {"ps": 0, "pl": 2, "free": 0}, stmt=fstmt, max_execs=cap)
+    # a callback receiver whose channel handle was dropped keeps receiving every item (no loss)
+    from .c10_callbacks import CbScn
+
+    class DroppedCb:
+        scenario = staticmethod(CbScn.scenario)
+
+        @staticmethod
+        def oracle(w, S, P):
+            v, out = CbScn.oracle(w, S, P)
+            if v is not None:
+                return ("c02:callback-" + v[0].split(":", 1)[1], v[1]), out
+            return None, out
+
+    SCENARIOS["dropped"] = DroppedCb
+    for end, chan in (("close", "new"), ("body-end", "exec")):
+        name = f"dropped/{end}"
+        if only and only not in name:
+            continue
+        P = {"n": 3, "k": 0, "end": end, "chan": chan, "endmarker": True, "delay": 0, "drop_handle": True, "transport": "popen", "backend": "thread"}
+        harness.run_exploration(rep, PID, name, DroppedCb, P, {"ps": 1, "free": 1}, max_execs=cap)
     # read chunking as an environment deviation
     P = {"transport": "popen", "backend": "thread", "channels": [ch(up=1, down=2)], "size": 3, "short_reads": True}
     if not only or "chunk" in only:
